@@ -63,3 +63,247 @@ func ghost_inDeque[K comparable, V any](d *Linked[K, V], n node.Node[K, V]) bool
 //@ func (*Linked).Len : C04 C05 C07
 //@   assumed A-deque
 //@   ensures [len-bounded] result >= 0 && result < 1<<40
+
+// ---------------------------------------------------------------------------------------------
+// Bounded stand-in for A-deque (NOT a proof): the real list code is executed symbolically, with the assumed
+// contracts above switched off (`bodies`), on every list of at most three distinct nodes built by the real
+// PushBack / PushFront, followed by one arbitrary operation. The harnesses are ordinary Go; the postcondition of
+// each is that the representation is exactly the expected sequence.
+// Bound: <= 3 nodes in the list (+ one outside node), one operation after construction, both link families.
+// ---------------------------------------------------------------------------------------------
+
+func ghost_hasSize() bool     { panic("ghost") }
+func ghost_hasExpLinks() bool { panic("ghost") }
+
+func nx[K comparable, V any](d *Linked[K, V], n node.Node[K, V]) node.Node[K, V] { return d.getNext(n) }
+func pv[K comparable, V any](d *Linked[K, V], n node.Node[K, V]) node.Node[K, V] { return d.getPrev(n) }
+
+func free[K comparable, V any](d *Linked[K, V], n node.Node[K, V]) bool {
+	return node.Equals(pv(d, n), nil) && node.Equals(nx(d, n), nil)
+}
+
+// rep: d represents exactly the sequence s0..s(n-1)
+func rep[K comparable, V any](d *Linked[K, V], s0, s1, s2, s3 node.Node[K, V], n int) bool {
+	switch n {
+	case 0:
+		return d.head == nil && d.tail == nil && d.len == 0
+	case 1:
+		return d.head == s0 && d.tail == s0 && d.len == 1 && free(d, s0)
+	case 2:
+		return d.head == s0 && d.tail == s1 && d.len == 2 && pv(d, s0) == nil && nx(d, s0) == s1 && pv(d, s1) == s0 && nx(d, s1) == nil
+	case 3:
+		return d.head == s0 && d.tail == s2 && d.len == 3 && pv(d, s0) == nil && nx(d, s0) == s1 && pv(d, s1) == s0 && nx(d, s1) == s2 &&
+			pv(d, s2) == s1 && nx(d, s2) == nil
+	case 4:
+		return d.head == s0 && d.tail == s3 && d.len == 4 && pv(d, s0) == nil && nx(d, s0) == s1 && pv(d, s1) == s0 && nx(d, s1) == s2 &&
+			pv(d, s2) == s1 && nx(d, s2) == s3 && pv(d, s3) == s2 && nx(d, s3) == nil
+	}
+	return false
+}
+
+// build constructs the list (a, b, c)[:m] with the real code: by PushBack, or in reverse by PushFront
+func build[K comparable, V any](isExp, front bool, a, b, c node.Node[K, V], m int) *Linked[K, V] {
+	d := NewLinked[K, V](isExp)
+	if front {
+		if m >= 3 {
+			d.PushFront(c)
+		}
+		if m >= 2 {
+			d.PushFront(b)
+		}
+		if m >= 1 {
+			d.PushFront(a)
+		}
+	} else {
+		if m >= 1 {
+			d.PushBack(a)
+		}
+		if m >= 2 {
+			d.PushBack(b)
+		}
+		if m >= 3 {
+			d.PushBack(c)
+		}
+	}
+	return d
+}
+
+// pick returns the i-th of (a, b, c) or the outside node x
+func pick[K comparable, V any](a, b, c, x node.Node[K, V], i int) node.Node[K, V] {
+	switch i {
+	case 0:
+		return a
+	case 1:
+		return b
+	case 2:
+		return c
+	}
+	return x
+}
+
+// without: the sequence (a,b,c)[:m] with position i removed (i >= m: unchanged); returns the new elements and length
+func without[K comparable, V any](a, b, c node.Node[K, V], m, i int) (node.Node[K, V], node.Node[K, V], node.Node[K, V], int) {
+	if i >= m || i < 0 {
+		return a, b, c, m
+	}
+	switch i {
+	case 0:
+		return b, c, nil, m - 1
+	case 1:
+		return a, c, nil, m - 1
+	}
+	return a, b, nil, m - 1
+}
+
+// ---- harnesses: construction + one operation with the real code; all checking is done by the postconditions
+
+func bBuild[K comparable, V any](isExp, front bool, a, b, c node.Node[K, V], m int) *Linked[K, V] {
+	return build(isExp, front, a, b, c, m)
+}
+
+func bPush[K comparable, V any](isExp, front, atFront bool, a, b, c, x node.Node[K, V], m int) *Linked[K, V] {
+	d := build(isExp, front, a, b, c, m)
+	if atFront {
+		d.PushFront(x)
+	} else {
+		d.PushBack(x)
+	}
+	return d
+}
+
+func bDelete[K comparable, V any](isExp, front bool, a, b, c, x node.Node[K, V], m, i int) *Linked[K, V] {
+	d := build(isExp, front, a, b, c, m)
+	d.Delete(pick(a, b, c, x, i))
+	return d
+}
+
+func bPopFront[K comparable, V any](isExp, front bool, a, b, c node.Node[K, V], m int) (*Linked[K, V], node.Node[K, V]) {
+	d := build(isExp, front, a, b, c, m)
+	r := d.PopFront()
+	return d, r
+}
+
+func bMove[K comparable, V any](isExp, front, toFront bool, a, b, c node.Node[K, V], m, i int) *Linked[K, V] {
+	d := build(isExp, front, a, b, c, m)
+	if toFront {
+		d.MoveToFront(pick(a, b, c, nil, i))
+	} else {
+		d.MoveToBack(pick(a, b, c, nil, i))
+	}
+	return d
+}
+
+func bUpdate[K comparable, V any](isExp, front bool, a, b, c, x node.Node[K, V], m, i int) *Linked[K, V] {
+	d := build(isExp, front, a, b, c, m)
+	d.UpdateNode(x, pick(a, b, c, nil, i))
+	return d
+}
+
+// ---- expected results (specification side)
+
+func okPush[K comparable, V any](d *Linked[K, V], atFront bool, a, b, c, x node.Node[K, V], m int) bool {
+	if atFront {
+		return rep(d, x, a, b, c, m+1) && d.Contains(x) && d.Head() == x
+	}
+	switch m {
+	case 0:
+		return rep(d, x, nil, nil, nil, 1) && d.Contains(x)
+	case 1:
+		return rep(d, a, x, nil, nil, 2) && d.Contains(x)
+	case 2:
+		return rep(d, a, b, x, nil, 3) && d.Contains(x)
+	}
+	return rep(d, a, b, c, x, 4) && d.Contains(x) && d.Tail() == x
+}
+
+func okDelete[K comparable, V any](d *Linked[K, V], a, b, c, x node.Node[K, V], m, i int) bool {
+	n := pick(a, b, c, x, i)
+	e0, e1, e2, en := without(a, b, c, m, i)
+	return rep(d, e0, e1, e2, nil, en) && free(d, n) && d.NotContains(n) && d.Len() == en && d.IsEmpty() == (en == 0)
+}
+
+func okPopFront[K comparable, V any](d *Linked[K, V], r, a, b, c node.Node[K, V], m int) bool {
+	if m == 0 {
+		return r == nil && rep(d, nil, nil, nil, nil, 0)
+	}
+	e0, e1, e2, en := without(a, b, c, m, 0)
+	return r == a && rep(d, e0, e1, e2, nil, en) && free(d, a) && d.NotContains(a)
+}
+
+func okMove[K comparable, V any](d *Linked[K, V], toFront bool, a, b, c node.Node[K, V], m, i int) bool {
+	n := pick(a, b, c, nil, i)
+	e0, e1, e2, en := without(a, b, c, m, i)
+	if toFront {
+		return rep(d, n, e0, e1, e2, en+1) && d.Contains(n)
+	}
+	switch en {
+	case 0:
+		return rep(d, n, nil, nil, nil, 1)
+	case 1:
+		return rep(d, e0, n, nil, nil, 2)
+	}
+	return rep(d, e0, e1, n, nil, 3) && d.Contains(n)
+}
+
+func okUpdate[K comparable, V any](d *Linked[K, V], a, b, c, x node.Node[K, V], m, i int) bool {
+	old := pick(a, b, c, nil, i)
+	switch i {
+	case 0:
+		return rep(d, x, b, c, nil, m) && free(d, old) && d.NotContains(old) && d.Contains(x)
+	case 1:
+		return rep(d, a, x, c, nil, m) && free(d, old) && d.NotContains(old) && d.Contains(x)
+	}
+	return rep(d, a, b, x, nil, m) && free(d, old) && d.NotContains(old) && d.Contains(x)
+}
+
+//@ macro BREQ = a != nil && b != nil && c != nil && x != nil && a != b && a != c && b != c && x != a && x != b && x != c && m >= 0 && m <= 3 && ghost_hasSize() && ghost_hasExpLinks()
+//@ macro BFREE = a.Prev() == nil && a.Next() == nil && b.Prev() == nil && b.Next() == nil && c.Prev() == nil && c.Next() == nil && x.Prev() == nil && x.Next() == nil && a.PrevExp() == nil && a.NextExp() == nil && b.PrevExp() == nil && b.NextExp() == nil && c.PrevExp() == nil && c.NextExp() == nil && x.PrevExp() == nil && x.NextExp() == nil
+
+//@ func bBuild : C05
+//@   bounded lists of at most 3 nodes built by PushBack, or in reverse by PushFront
+//@   bodies
+//@   var x node.Node[K, V]
+//@   requires $BREQ && $BFREE
+//@   modifies *
+//@   ensures [bounded:construction-yields-the-sequence] rep(result, a, b, c, nil, m)
+//@   ensures [bounded:construction-length-and-membership] result.Len() == m && (m >= 1 ==> result.Contains(a) && result.Head() == a)
+//@   ensures [bounded:outside-node-not-contained] result.NotContains(x)
+
+//@ func bPush : C05
+//@   bounded lists of at most 3 nodes, one PushBack / PushFront after construction
+//@   bodies
+//@   requires $BREQ && $BFREE
+//@   modifies *
+//@   ensures [bounded:push-appends-or-prepends] okPush(result, atFront, a, b, c, x, m)
+
+//@ func bDelete : C05
+//@   bounded lists of at most 3 nodes, Delete of any member or of an outside node
+//@   bodies
+//@   requires $BREQ && $BFREE && i >= 0 && i <= 3
+//@   modifies *
+//@   ensures [bounded:delete-removes-exactly-that-node] okDelete(result, a, b, c, x, m, i)
+
+//@ func bPopFront : C05
+//@   bounded lists of at most 3 nodes
+//@   bodies
+//@   var x node.Node[K, V]
+//@   requires $BREQ && $BFREE
+//@   modifies *
+//@   ensures [bounded:popfront-removes-the-head] okPopFront(r0, r1, a, b, c, m)
+
+//@ func bMove : C05
+//@   thorough-only
+//@   bounded lists of at most 3 nodes, MoveToFront / MoveToBack of any member
+//@   bodies
+//@   var x node.Node[K, V]
+//@   requires $BREQ && $BFREE && i >= 0 && i < m
+//@   modifies *
+//@   ensures [bounded:move-keeps-the-other-nodes-in-order] okMove(result, toFront, a, b, c, m, i)
+
+//@ func bUpdate : C05
+//@   thorough-only
+//@   bounded lists of at most 3 nodes, UpdateNode replacing any member by an outside node
+//@   bodies
+//@   requires $BREQ && $BFREE && i >= 0 && i < m
+//@   modifies *
+//@   ensures [bounded:update-transplants-in-place] okUpdate(result, a, b, c, x, m, i)
